@@ -14,6 +14,14 @@
 //! Oracle (independent of the model): exhaustive scan arg-min under the plugin's own distance measure
 //! (ties accepted), admissibility of the matched edge, tolerance rule in METRES via haversine for both
 //! matchers (0.2 % slack: the unit tables are only required to be within 0.1 %), other fields unchanged.
+//! The distance measure ITSELF is checked too, on the oracle's own geometry in plain f64 and without any of
+//! the plugin's distance functions: squared Euclidean coordinate distance to the vertex
+//! (`vertex-match/not-nearest-independent`), Euclidean distance to the oracle's own length-weighted
+//! linestring centroid (`edge-match/not-nearest-independent`), and the tolerance verdict on that centroid with
+//! the real haversine (`edge-match/tolerance-independent`), all with a guard band for the code's f32
+//! arithmetic (relative 1e-4 plus a few f32 ulps of the coordinates for the centroid).  Every fourth edge
+//! case is a bent-linestring scenario (L, hook, staircase against a straight competitor, the query where
+//! "nearest centroid" and "nearest bounding-box midpoint" disagree, tolerance between the two).
 use crate::ctx::{fbits, Ctx};
 use crate::jsonproto::{enc, hex};
 use crate::rng::Rng;
@@ -412,6 +420,135 @@ fn outcome_line(r: &Result<Result<(), InputPluginError>, ()>, q: &Value) -> Stri
 }
 
 // ------------------------------------------------------------------------------------------------
+// the oracle's own geometry (plain f64, none of the plugin's distance functions)
+// ------------------------------------------------------------------------------------------------
+
+/// spacing of f32 numbers at magnitude `x`
+fn ulp32(x: f64) -> f64 {
+    let a = x.abs().max(f32::MIN_POSITIVE as f64);
+    if !a.is_finite() {
+        return f64::INFINITY;
+    }
+    2f64.powi(a.log2().floor() as i32 - 23)
+}
+
+/// centroid of a linestring as `geo` defines it: the mean of the segment midpoints weighted by segment
+/// length; segments of zero length do not count next to longer ones; if every segment has zero length
+/// (or there is one point) all points coincide and that point is the centroid
+fn own_centroid(pts: &[(f32, f32)]) -> Option<(f64, f64)> {
+    if pts.is_empty() {
+        return None;
+    }
+    let (mut w, mut ax, mut ay) = (0.0f64, 0.0f64, 0.0f64);
+    for s in pts.windows(2) {
+        let (x0, y0, x1, y1) = (s[0].0 as f64, s[0].1 as f64, s[1].0 as f64, s[1].1 as f64);
+        let len = ((x1 - x0) * (x1 - x0) + (y1 - y0) * (y1 - y0)).sqrt();
+        w += len;
+        ax += len * (x0 + x1) / 2.0;
+        ay += len * (y0 + y1) / 2.0;
+    }
+    if w > 0.0 {
+        Some((ax / w, ay / w))
+    } else {
+        Some((pts[0].0 as f64, pts[0].1 as f64))
+    }
+}
+
+/// midpoint of the bounding box (what the centroid must NOT be confused with)
+fn bbox_mid(pts: &[(f32, f32)]) -> (f64, f64) {
+    let xs = pts.iter().map(|p| p.0 as f64);
+    let ys = pts.iter().map(|p| p.1 as f64);
+    let (x0, x1) = (xs.clone().fold(f64::INFINITY, f64::min), xs.fold(f64::NEG_INFINITY, f64::max));
+    let (y0, y1) = (ys.clone().fold(f64::INFINITY, f64::min), ys.fold(f64::NEG_INFINITY, f64::max));
+    ((x0 + x1) / 2.0, (y0 + y1) / 2.0)
+}
+
+/// bound on how far the f32 centroid the code computes can be from the exact one (degrees)
+fn centroid_eps(pts: &[(f32, f32)], q: (f64, f64)) -> f64 {
+    let m = pts.iter().fold(q.0.abs().max(q.1.abs()), |m, p| m.max((p.0 as f64).abs()).max((p.1 as f64).abs()));
+    4.0 * (pts.len() as f64 + 1.0) * ulp32(m)
+}
+
+fn dist(a: (f64, f64), b: (f64, f64)) -> f64 {
+    ((a.0 - b.0) * (a.0 - b.0) + (a.1 - b.1) * (a.1 - b.1)).sqrt()
+}
+
+/// the query coordinate as the plugins see it (`as f32`), back in f64
+fn seen(c: (f64, f64)) -> (f64, f64) {
+    (c.0 as f32 as f64, c.1 as f32 as f64)
+}
+
+/// relative guard band of the independent nearest checks (the code computes and orders in f32)
+const REL_BAND: f64 = 1.0e-4;
+
+/// bent linestrings (L, hook, staircase: legs of different length, so centroid != bounding-box midpoint), each with
+/// a straight competitor and a query placed where "nearest centroid" and "nearest bounding-box midpoint" disagree
+fn gen_bent(rng: &mut Rng, patch: &Patch) -> (Vec<Vec<(f32, f32)>>, Vec<(f64, f64)>, Vec<(usize, usize)>) {
+    let mut geoms: Vec<Vec<(f32, f32)>> = vec![];
+    let mut queries = vec![];
+    let mut pairs = vec![];
+    let groups = 1 + rng.below(2);
+    for gi in 0..groups {
+        let base = (patch.x0 + 0.2 * gi as f64 + rng.uniform(0.0, 0.05), patch.y0 + rng.uniform(0.0, 0.05));
+        let a = rng.uniform(0.01, 0.04);
+        let b = a * rng.uniform(0.15, 0.6);
+        let (sx, sy) = (if rng.chance(1, 2) { 1.0 } else { -1.0 }, if rng.chance(1, 2) { 1.0 } else { -1.0 });
+        let swap = rng.chance(1, 2);
+        // shape in (long, short) coordinates
+        let shape: Vec<(f64, f64)> = match rng.below(5) {
+            0 => vec![(0.0, 0.0), (a, 0.0), (a, b)],
+            1 => vec![(0.0, 0.0), (a * rng.uniform(0.2, 0.8), 0.0), (a, 0.0), (a, b)],
+            2 => vec![(0.0, 0.0), (a, 0.0), (a, b), (a * rng.uniform(0.6, 0.9), b)],
+            3 => vec![(0.0, 0.0), (a, 0.0), (a, b), (a * 1.25, b), (a * 1.25, b * 1.5)],
+            _ => vec![(0.0, 0.0), (a * 0.5, 0.0), (a, 0.0), (a, b * 0.5), (a, b), (a * 0.9, b * 1.2)],
+        };
+        let bent: Vec<(f32, f32)> = shape
+            .iter()
+            .map(|(l, s)| {
+                let (dx, dy) = if swap { (*s, *l) } else { (*l, *s) };
+                ((base.0 + sx * dx) as f32, (base.1 + sy * dy) as f32)
+            })
+            .collect();
+        let c = own_centroid(&bent).unwrap();
+        let m = bbox_mid(&bent);
+        // the query sits near one of the two points; the competitor's centre lies between the two distances
+        let near_centroid = rng.chance(1, 2);
+        let (near, far) = if near_centroid { (c, m) } else { (m, c) };
+        let delta = dist(c, m);
+        let r = delta * rng.uniform(0.0, 0.3);
+        let th = rng.uniform(0.0, std::f64::consts::TAU);
+        let q = (near.0 + r * th.cos(), near.1 + r * th.sin());
+        let d_far = dist(q, far);
+        let rho = r + (d_far - r) * rng.uniform(0.25, 0.75);
+        let th2 = rng.uniform(0.0, std::f64::consts::TAU);
+        let cb = (q.0 + rho * th2.cos(), q.1 + rho * th2.sin());
+        let h = rng.uniform(0.0002, 0.001);
+        let th3 = rng.uniform(0.0, std::f64::consts::TAU);
+        let mut straight = vec![((cb.0 - h * th3.cos()) as f32, (cb.1 - h * th3.sin()) as f32), ((cb.0 + h * th3.cos()) as f32, (cb.1 + h * th3.sin()) as f32)];
+        if rng.chance(1, 3) {
+            straight.insert(1, (cb.0 as f32, cb.1 as f32)); // a collinear middle point
+        }
+        let ia = geoms.len();
+        if rng.chance(1, 2) {
+            geoms.push(bent);
+            geoms.push(straight);
+            pairs.push((ia, ia + 1));
+        } else {
+            geoms.push(straight);
+            geoms.push(bent);
+            pairs.push((ia + 1, ia));
+        }
+        queries.push(q);
+    }
+    // a few bystanders further away
+    for _ in 0..rng.below(4) {
+        let p = (patch.x0 - 0.3 + rng.uniform(0.0, 0.1), patch.y0 + rng.uniform(0.0, 0.3));
+        geoms.push(vec![(p.0 as f32, p.1 as f32), ((p.0 + rng.uniform(-0.01, 0.01)) as f32, (p.1 + rng.uniform(-0.01, 0.01)) as f32)]);
+    }
+    (geoms, queries, pairs)
+}
+
+// ------------------------------------------------------------------------------------------------
 // vertex matcher
 // ------------------------------------------------------------------------------------------------
 
@@ -667,6 +804,27 @@ fn vertex_case(ctx: &mut Ctx, idx: usize, files: &Files, forced: Option<usize>) 
             if !good {
                 ctx.fail(idx, "vertex-match/not-nearest", format!("{} = {:?} is not a nearest vertex (min distance_2 {:?}); query {}", field, q.get(*field), scan.min_d2, before));
             }
+            // the same with the oracle's OWN measure: squared Euclidean coordinate distance in f64 from the
+            // coordinate as the plugin sees it (f32) to the vertex coordinates written to the file
+            let side_q = if *field == "origin_vertex" { spec.origin } else { spec.destination };
+            if let (Some(id), Some(qraw)) = (written, side_q) {
+                let qs = seen(qraw);
+                let own_d2 = |p: &(f32, f32)| (p.0 as f64 - qs.0) * (p.0 as f64 - qs.0) + (p.1 as f64 - qs.1) * (p.1 as f64 - qs.1);
+                let best = ids.iter().zip(pts.iter()).map(|(i, p)| (*i, own_d2(p))).fold(None, |m: Option<(usize, f64)>, c| match m {
+                    Some(x) if x.1 <= c.1 => Some(x),
+                    _ => Some(c),
+                });
+                let mine = ids.iter().zip(pts.iter()).find(|(i, _)| **i as u64 == id).map(|(_, p)| own_d2(p));
+                if let (Some(best), Some(mine)) = (best, mine) {
+                    if !(mine <= best.1 * (1.0 + REL_BAND) + 1e-30) {
+                        ctx.fail(
+                            idx,
+                            "vertex-match/not-nearest-independent",
+                            format!("{} = {} is {} deg^2 from the query {:?} but vertex {} is only {} deg^2 away", field, id, mine, qs, best.0, best.1),
+                        );
+                    }
+                }
+            }
         }
     }
     if sides.len() == 1 && ok && before.get("destination_vertex") != q.get("destination_vertex") {
@@ -787,7 +945,7 @@ fn oracle_classes(q: &Value, mapping: &[(String, u8)]) -> Option<Option<BTreeSet
     strs.map(Some)
 }
 
-fn edge_case(ctx: &mut Ctx, idx: usize, files: &Files, forced: Option<usize>) {
+fn edge_case(ctx: &mut Ctx, idx: usize, files: &Files, forced: Option<usize>, bent: bool) {
     let mut rng = Rng::for_case(ctx.seed, 16, idx as u64);
     let patch = gen_patch(&mut rng);
     let n = match forced {
@@ -828,18 +986,26 @@ fn edge_case(ctx: &mut Ctx, idx: usize, files: &Files, forced: Option<usize>) {
         // witness of edge-match/tolerance-units: one edge whose centroid is (0,0)
         geoms = vec![vec![(-0.0005, 0.0), (0.0005, 0.0)]];
     }
+    let mut bent_queries: Vec<(f64, f64)> = vec![];
+    if bent {
+        let (g, qs, _pairs) = gen_bent(&mut rng, &patch);
+        geoms = g;
+        bent_queries = qs;
+        ctx.count("edge_bent_scenario");
+    }
+    let n = geoms.len();
     let wkt: String = geoms.iter().map(|g| format!("LINESTRING ({})\n", g.iter().map(|p| format!("{} {}", p.0, p.1)).collect::<Vec<_>>().join(", "))).collect();
     let gfile = files.write("geometries.txt", &wkt);
 
     // road classes
-    let with_classes = forced.is_none() && rng.chance(3, 5);
+    let with_classes = forced.is_none() && !bent && rng.chance(3, 5);
     let n_classes = 1 + rng.below(4);
     let classes: Vec<u8> = (0..n).map(|_| rng.below(n_classes) as u8 + if rng.chance(1, 10) { 252 } else { 0 }).collect();
     let cfile = if with_classes { Some(files.write("road_classes.txt", &classes.iter().map(|c| format!("{}\n", c)).collect::<String>())) } else { None };
     let mapping: Vec<(String, u8)> = if forced.is_none() && rng.chance(1, 3) { CLASS_NAMES.iter().enumerate().take(n_classes).map(|(i, s)| (s.to_string(), i as u8)).collect() } else { vec![] };
 
     // vehicle restrictions
-    let with_restrictions = forced.is_none() && rng.chance(2, 5);
+    let with_restrictions = forced.is_none() && !bent && rng.chance(2, 5);
     let mut rcsv = String::from("edge_id,restriction_name,restriction_value,restriction_unit\n");
     if with_restrictions {
         for e in 0..n {
@@ -863,6 +1029,12 @@ fn edge_case(ctx: &mut Ctx, idx: usize, files: &Files, forced: Option<usize>) {
         o = (0.003, 0.0); // ~333 m east of the centroid
         d = None;
     }
+    let mut ob = ob;
+    if bent {
+        o = bent_queries[0];
+        ob = "q_between_centroid_and_bbox_midpoint";
+        d = bent_queries.get(1).map(|q| (*q, "q_between_centroid_and_bbox_midpoint"));
+    }
     ctx.count(&format!("edge_origin_{}", ob));
     match &d {
         Some((_, b)) => ctx.count(&format!("edge_destination_{}", b)),
@@ -870,7 +1042,7 @@ fn edge_case(ctx: &mut Ctx, idx: usize, files: &Files, forced: Option<usize>) {
     }
     let mut extra: Vec<(String, Value)> = vec![];
     let mut classes_branch = "edge_road_classes_absent";
-    if forced.is_none() && rng.chance(3, 5) {
+    if forced.is_none() && !bent && rng.chance(3, 5) {
         let (v, b) = match rng.below(24) {
             0 => (json!([]), "edge_road_classes_empty"),
             1 => (json!([*rng.pick(&[256u64, 300, 65536, 4294967296])]), "edge_road_classes_out_of_u8"),
@@ -954,6 +1126,22 @@ fn edge_case(ctx: &mut Ctx, idx: usize, files: &Files, forced: Option<usize>) {
             1 => (3.0, DistanceUnit::Feet),
             _ => (0.01, DistanceUnit::Kilometers),
         });
+    }
+    let mut tb = tb;
+    if bent && rng.chance(1, 2) {
+        // between the great-circle distances of the two edges whose (own) centroids are nearest to one of the queries
+        let qs = seen(bent_queries[rng.below(bent_queries.len())]);
+        let mut by_d: Vec<(f64, (f64, f64))> = geoms.iter().filter_map(|g| own_centroid(g)).map(|c| (dist(qs, c), c)).collect();
+        by_d.sort_by(|a, b| a.0.partial_cmp(&b.0).unwrap());
+        if by_d.len() >= 2 {
+            let g0 = haversine::coord_distance_meters(&to_f32(qs), &to_f32(by_d[0].1)).ok().map(|d| d.as_f64());
+            let g1 = haversine::coord_distance_meters(&to_f32(qs), &to_f32(by_d[1].1)).ok().map(|d| d.as_f64());
+            if let (Some(g0), Some(g1)) = (g0, g1) {
+                let u = *rng.pick(&D);
+                tol = Some(((g0 + g1) / 2.0 / si_d(&u), u));
+                tb = "tol_between_two_nearest_centroids";
+            }
+        }
     }
     ctx.count(&format!("edge_{}", if forced.is_some() { "corpus" } else { tb }));
 
@@ -1082,6 +1270,77 @@ fn edge_case(ctx: &mut Ctx, idx: usize, files: &Files, forced: Option<usize>) {
             }
         }
     }
+    // ---- the same questions asked of the oracle's OWN geometry (f64 centroid, Euclidean distance; real haversine
+    // only for the metres): the plugin's `distance_2` itself is under test here ----
+    let side_q = [spec.origin, spec.destination];
+    let mut ind_expect_ok = true;
+    let mut ind_expect_err: Option<String> = None;
+    for (k, (field, scan)) in sides.iter().enumerate() {
+        let Some(qraw) = side_q[k] else { continue };
+        let qs = seen(qraw);
+        let ind: Vec<(usize, f64, f64, (f64, f64))> = scan
+            .cands
+            .iter()
+            .filter(|c| admissible(c))
+            .filter_map(|c| own_centroid(&geoms[c.0]).map(|ct| (c.0, dist(qs, ct), centroid_eps(&geoms[c.0], qs), ct)))
+            .collect();
+        let Some(best) = ind.iter().cloned().fold(None, |m: Option<(usize, f64, f64, (f64, f64))>, c| match m {
+            Some(x) if x.1 <= c.1 => Some(x),
+            _ => Some(c),
+        }) else {
+            ind_expect_ok = false;
+            continue;
+        };
+        let near: Vec<&(usize, f64, f64, (f64, f64))> = ind.iter().filter(|c| c.1 <= best.1 * (1.0 + REL_BAND) + c.2 + best.2 + 1e-12).collect();
+        if near.len() > 1 {
+            ctx.count("edge_independent_near_tie");
+        }
+        if ok {
+            if let Some(id) = q.get(*field).and_then(|v| v.as_u64()) {
+                if let Some(m) = ind.iter().find(|c| c.0 as u64 == id) {
+                    if !near.iter().any(|c| c.0 as u64 == id) {
+                        ctx.fail(
+                            idx,
+                            "edge-match/not-nearest-independent",
+                            format!(
+                                "{} = {}: its centroid {:?} is {} deg from the query {:?}, but the centroid {:?} of admissible edge {} is only {} deg away (guard band {} deg); geometries {:?} vs {:?}",
+                                field, id, m.3, m.1, qs, best.3, best.0, best.1, best.1 * REL_BAND + m.2 + best.2, geoms[m.0], geoms[best.0]
+                            ),
+                        );
+                    }
+                }
+            }
+        }
+        if let Some((t, u)) = &tol {
+            let t_m = t * si_d(u);
+            let gcs: Vec<Option<(f64, f64)>> = near
+                .iter()
+                .map(|c| haversine::coord_distance_meters(&to_f32(qs), &to_f32(c.3)).ok().map(|g| (g.as_f64(), 2.0 + 1.0e-5 * g.as_f64() + 1.3e5 * c.2)))
+                .collect();
+            if gcs.iter().any(|g| g.is_none()) {
+                ind_expect_ok = false;
+            } else {
+                let gcs: Vec<(f64, f64)> = gcs.into_iter().flatten().collect();
+                if gcs.iter().all(|(g, band)| *g > t_m + t_m.abs() * SLACK + band) {
+                    ind_expect_ok = false;
+                    ind_expect_err = Some(format!("{}: the admissible edge with the nearest centroid (edge {}) is {} m away, tolerance {} {} = {} m", field, best.0, gcs[0].0, t, u, t_m));
+                } else if !gcs.iter().all(|(g, band)| *g < t_m - t_m.abs() * SLACK - band) {
+                    ind_expect_ok = false;
+                }
+            }
+        }
+    }
+    if ok {
+        if let Some(why) = ind_expect_err {
+            ctx.fail(idx, "edge-match/tolerance-independent", format!("matched ({}) although {}", q, why));
+        }
+    } else if ind_expect_ok && tol.is_some() {
+        ctx.fail(
+            idx,
+            "edge-match/tolerance-independent",
+            format!("error although for every coordinate the admissible edge with the nearest centroid is within {:?}: {}; geometries {:?}", tol, before, if geoms.len() <= 8 { geoms.clone() } else { vec![] }),
+        );
+    }
     if sides.len() == 1 && ok && before.get("destination_edge") != q.get("destination_edge") {
         ctx.fail(idx, "edge-match/destination-written-without-coordinate", format!("{} -> {}", before, q));
     }
@@ -1132,7 +1391,7 @@ pub fn run(ctx: &mut Ctx) -> &'static str {
     }
     for k in 0..3 {
         if let Some(idx) = ctx.begin() {
-            edge_case(ctx, idx, &files, Some(k));
+            edge_case(ctx, idx, &files, Some(k), false);
         }
     }
     if let Some(idx) = ctx.begin() {
@@ -1144,7 +1403,8 @@ pub fn run(ctx: &mut Ctx) -> &'static str {
         if i % 2 == 0 {
             vertex_case(ctx, idx, &files, None);
         } else {
-            edge_case(ctx, idx, &files, None);
+            // every fourth edge case is a bent-linestring scenario (centroid != bounding-box midpoint)
+            edge_case(ctx, idx, &files, None, i % 8 == 7);
         }
     }
     "non-trivial: well-formed coordinate fields and at least two network elements; fingerprint = geometry set, tolerance, coordinates (and for edges the whole query and restriction table)"
